@@ -65,7 +65,9 @@ func (hc *handshakeContext) sendResponderHello() error {
 	}
 
 	// Compute shared key from Ephemeral keys
-	box.Precompute(hc.sharedEphemeral, hc.peerEphemeral, hc.ownEphemeral)
+	if err := hc.computeSharedEphemeral(); err != nil {
+		return errcode.ErrCode_ErrHandshakePeerEphemeralKeyRecv.Wrap(err)
+	}
 
 	return nil
 }
